@@ -35,6 +35,12 @@ type opDef struct {
 	Small bool
 	// NoSame: the method rejects receiver == operand by documentation/shape.
 	NoSame bool
+	// VecT: Vector parameters accept x.TVec() (methods that only use Len/AtVec
+	// or untranspose their vector arguments).
+	VecT bool
+	// NoT lists slots that cannot be passed transposed (the operand is the
+	// value the method is called on, e.g. t in t.SolveTo(dst, ...)).
+	NoT []int
 	// SameSlots restricts pointer identity to the listed slots (nil: all).
 }
 
@@ -96,10 +102,10 @@ var ops = []*opDef{
 	{Name: "Solve", Recv: 'D', Slots: "MM", NFree: freeP, Tol: true, NonSing: []int{0},
 		Shapes: func(rr, rc, k, _ int) ([][2]int, bool) { return [][2]int{{k + 1, rr}, {k + 1, rc}}, true },
 		Call:   func(r mat.Matrix, a []mat.Matrix, _ int) { _ = dn(r).Solve(a[0], a[1]) }},
-	{Name: "RankOne", Recv: 'D', Slots: "MVV",
+	{Name: "RankOne", VecT: true, Recv: 'D', Slots: "MVV",
 		Shapes: func(rr, rc, _, _ int) ([][2]int, bool) { return [][2]int{{rr, rc}, {rr, 1}, {rc, 1}}, true },
 		Call:   func(r mat.Matrix, a []mat.Matrix, _ int) { dn(r).RankOne(a[0], 2, asVec(a[1]), asVec(a[2])) }},
-	{Name: "Outer", Recv: 'D', Slots: "VV",
+	{Name: "Outer", VecT: true, Recv: 'D', Slots: "VV",
 		Shapes: func(rr, rc, _, _ int) ([][2]int, bool) { return [][2]int{{rr, 1}, {rc, 1}}, true },
 		Call:   func(r mat.Matrix, a []mat.Matrix, _ int) { dn(r).Outer(2, asVec(a[0]), asVec(a[1])) }},
 	{Name: "Stack", Recv: 'D', Slots: "MM", NFree: freeP, NoSame: true,
@@ -125,19 +131,19 @@ var ops = []*opDef{
 		Call: func(r mat.Matrix, a []mat.Matrix, _ int) { dn(r).Kronecker(a[0], a[1]) }},
 
 	// ---- VecDense --------------------------------------------------------
-	{Name: "AddVec", Recv: 'V', Slots: "VV", Shapes: same2,
+	{Name: "AddVec", VecT: true, Recv: 'V', Slots: "VV", Shapes: same2,
 		Call: func(r mat.Matrix, a []mat.Matrix, _ int) { vc(r).AddVec(asVec(a[0]), asVec(a[1])) }},
-	{Name: "SubVec", Recv: 'V', Slots: "VV", Shapes: same2,
+	{Name: "SubVec", VecT: true, Recv: 'V', Slots: "VV", Shapes: same2,
 		Call: func(r mat.Matrix, a []mat.Matrix, _ int) { vc(r).SubVec(asVec(a[0]), asVec(a[1])) }},
-	{Name: "MulElemVec", Recv: 'V', Slots: "VV", Shapes: same2,
+	{Name: "MulElemVec", VecT: true, Recv: 'V', Slots: "VV", Shapes: same2,
 		Call: func(r mat.Matrix, a []mat.Matrix, _ int) { vc(r).MulElemVec(asVec(a[0]), asVec(a[1])) }},
-	{Name: "DivElemVec", Recv: 'V', Slots: "VV", Shapes: same2,
+	{Name: "DivElemVec", VecT: true, Recv: 'V', Slots: "VV", Shapes: same2,
 		Call: func(r mat.Matrix, a []mat.Matrix, _ int) { vc(r).DivElemVec(asVec(a[0]), asVec(a[1])) }},
-	{Name: "ScaleVec", Recv: 'V', Slots: "V", Shapes: same1,
+	{Name: "ScaleVec", VecT: true, Recv: 'V', Slots: "V", Shapes: same1,
 		Call: func(r mat.Matrix, a []mat.Matrix, _ int) { vc(r).ScaleVec(3, asVec(a[0])) }},
-	{Name: "AddScaledVec", Recv: 'V', Slots: "VV", Shapes: same2, NVar: len(alphas),
+	{Name: "AddScaledVec", VecT: true, Recv: 'V', Slots: "VV", Shapes: same2, NVar: len(alphas),
 		Call: func(r mat.Matrix, a []mat.Matrix, v int) { vc(r).AddScaledVec(asVec(a[0]), alphas[v], asVec(a[1])) }},
-	{Name: "CopyVec", Recv: 'V', Slots: "V", NFree: freeP, CopyLike: 2,
+	{Name: "CopyVec", VecT: true, Recv: 'V', Slots: "V", NFree: freeP, CopyLike: 2,
 		Shapes: func(rr, rc, k, _ int) ([][2]int, bool) { return [][2]int{{k + 1, 1}}, true },
 		Call:   func(r mat.Matrix, a []mat.Matrix, _ int) { vc(r).CopyVec(asVec(a[0])) }},
 	{Name: "MulVec", Recv: 'V', Slots: "MV", NFree: freeP,
@@ -155,7 +161,7 @@ var ops = []*opDef{
 		Call:   func(r mat.Matrix, a []mat.Matrix, _ int) { sy(r).CopySym(asSym(a[0])) }},
 	{Name: "ScaleSym", Recv: 'S', Slots: "S", Shapes: same1,
 		Call: func(r mat.Matrix, a []mat.Matrix, _ int) { sy(r).ScaleSym(3, asSym(a[0])) }},
-	{Name: "SymRankOne", Recv: 'S', Slots: "SV",
+	{Name: "SymRankOne", VecT: true, Recv: 'S', Slots: "SV",
 		Shapes: func(rr, rc, _, _ int) ([][2]int, bool) { return [][2]int{{rr, rr}, {rr, 1}}, true },
 		Call:   func(r mat.Matrix, a []mat.Matrix, _ int) { sy(r).SymRankOne(asSym(a[0]), 2, asVec(a[1])) }},
 	{Name: "SymRankK", Recv: 'S', Slots: "SM", NFree: freeP,
@@ -164,7 +170,7 @@ var ops = []*opDef{
 	{Name: "SymOuterK", Recv: 'S', Slots: "M", NFree: freeP,
 		Shapes: func(rr, rc, k, _ int) ([][2]int, bool) { return [][2]int{{rr, k + 1}}, true },
 		Call:   func(r mat.Matrix, a []mat.Matrix, _ int) { sy(r).SymOuterK(2, a[0]) }},
-	{Name: "RankTwo", Recv: 'S', Slots: "SVV",
+	{Name: "RankTwo", VecT: true, Recv: 'S', Slots: "SVV",
 		Shapes: func(rr, rc, _, _ int) ([][2]int, bool) { return [][2]int{{rr, rr}, {rr, 1}, {rr, 1}}, true },
 		Call: func(r mat.Matrix, a []mat.Matrix, _ int) {
 			sy(r).RankTwo(asSym(a[0]), 2, asVec(a[1]), asVec(a[2]))
@@ -201,6 +207,131 @@ var ops = []*opDef{
 		Call: func(r mat.Matrix, a []mat.Matrix, _ int) { tr(r).MulTri(asTri(a[0]), asTri(a[1])) }},
 	{Name: "InverseTri", Recv: 'T', Slots: "T", Shapes: same1, Tol: true, NonSing: []int{0},
 		Call: func(r mat.Matrix, a []mat.Matrix, _ int) { _ = tr(r).InverseTri(asTri(a[0])) }},
+}
+
+// ---- SolveTo family: the destination dst plays the part of the receiver ----
+
+// sysMatrix returns a well conditioned m x n system matrix with integer entries.
+func sysMatrix(m, n int) *mat.Dense {
+	a := mat.NewDense(m, n, nil)
+	for i := 0; i < m; i++ {
+		for j := 0; j < n; j++ {
+			v := float64(1 + (i+2*j)%3)
+			if i == j {
+				v = float64(4*(m+n) + i)
+			}
+			a.Set(i, j, v)
+		}
+	}
+	return a
+}
+
+func spdMatrix(n int) *mat.SymDense {
+	a := mat.NewSymDense(n, nil)
+	for i := 0; i < n; i++ {
+		for j := i; j < n; j++ {
+			v := 1.0
+			if i == j {
+				v = float64(2*n + i + 2)
+			}
+			a.SetSym(i, j, v)
+		}
+	}
+	return a
+}
+
+func sameShape(rr, rc, _, _ int) ([][2]int, bool) { return [][2]int{{rr, rc}}, true }
+
+func init() {
+	ops = append(ops,
+		&opDef{Name: "LU.SolveTo", Recv: 'D', Slots: "M", Shapes: sameShape, NVar: 2, Tol: true,
+			Call: func(r mat.Matrix, a []mat.Matrix, v int) {
+				n, _ := r.Dims()
+				var lu mat.LU
+				lu.Factorize(sysMatrix(n, n))
+				_ = lu.SolveTo(dn(r), v == 1, a[0])
+			}},
+		&opDef{Name: "Cholesky.SolveTo", Recv: 'D', Slots: "M", Shapes: sameShape, Tol: true,
+			Call: func(r mat.Matrix, a []mat.Matrix, _ int) {
+				n, _ := r.Dims()
+				var ch mat.Cholesky
+				ch.Factorize(spdMatrix(n))
+				_ = ch.SolveTo(dn(r), a[0])
+			}},
+		&opDef{Name: "PivotedCholesky.SolveTo", Recv: 'D', Slots: "M", Shapes: sameShape, Tol: true,
+			Call: func(r mat.Matrix, a []mat.Matrix, _ int) {
+				n, _ := r.Dims()
+				var ch mat.PivotedCholesky
+				ch.Factorize(spdMatrix(n), -1)
+				_ = ch.SolveTo(dn(r), a[0])
+			}},
+		// QR: A is (n+f) x n, dst n x k, b (n+f) x k.
+		&opDef{Name: "QR.SolveTo", Recv: 'D', Slots: "M", NFree: func(int) int { return 3 }, Tol: true,
+			Shapes: func(rr, rc, f, _ int) ([][2]int, bool) { return [][2]int{{rr + f, rc}}, true },
+			Call: func(r mat.Matrix, a []mat.Matrix, _ int) {
+				n, _ := r.Dims()
+				m, _ := a[0].Dims()
+				var qr mat.QR
+				qr.Factorize(sysMatrix(m, n))
+				_ = qr.SolveTo(dn(r), false, a[0])
+			}},
+		// LQ: A is (n-f) x n, dst n x k, b (n-f) x k.
+		&opDef{Name: "LQ.SolveTo", Recv: 'D', Slots: "M", NFree: func(int) int { return 3 }, Tol: true,
+			Shapes: func(rr, rc, f, _ int) ([][2]int, bool) { return [][2]int{{rr - f, rc}}, rr-f >= 1 },
+			Call: func(r mat.Matrix, a []mat.Matrix, _ int) {
+				n, _ := r.Dims()
+				m, _ := a[0].Dims()
+				var lq mat.LQ
+				lq.Factorize(sysMatrix(m, n))
+				_ = lq.SolveTo(dn(r), false, a[0])
+			}},
+		// t.SolveTo(dst, trans, b): the triangular matrix of the system is an operand too.
+		&opDef{Name: "TriDense.SolveTo", Recv: 'D', Slots: "TM", NVar: 2, Tol: true, NonSing: []int{0}, NoT: []int{0}, NoSame: false,
+			Shapes: func(rr, rc, _, _ int) ([][2]int, bool) { return [][2]int{{rr, rr}, {rr, rc}}, true },
+			Call: func(r mat.Matrix, a []mat.Matrix, v int) { _ = tr(a[0]).SolveTo(dn(r), v == 1, a[1]) }},
+		&opDef{Name: "LU.SolveVecTo", Recv: 'V', Slots: "V", Shapes: sameShape, NVar: 2, Tol: true,
+			Call: func(r mat.Matrix, a []mat.Matrix, v int) {
+				n, _ := r.Dims()
+				var lu mat.LU
+				lu.Factorize(sysMatrix(n, n))
+				_ = lu.SolveVecTo(vc(r), v == 1, asVec(a[0]))
+			}},
+		&opDef{Name: "Cholesky.SolveVecTo", Recv: 'V', Slots: "V", Shapes: sameShape, Tol: true,
+			Call: func(r mat.Matrix, a []mat.Matrix, _ int) {
+				n, _ := r.Dims()
+				var ch mat.Cholesky
+				ch.Factorize(spdMatrix(n))
+				_ = ch.SolveVecTo(vc(r), asVec(a[0]))
+			}},
+		&opDef{Name: "PivotedCholesky.SolveVecTo", Recv: 'V', Slots: "V", Shapes: sameShape, Tol: true,
+			Call: func(r mat.Matrix, a []mat.Matrix, _ int) {
+				n, _ := r.Dims()
+				var ch mat.PivotedCholesky
+				ch.Factorize(spdMatrix(n), -1)
+				_ = ch.SolveVecTo(vc(r), asVec(a[0]))
+			}},
+		&opDef{Name: "QR.SolveVecTo", Recv: 'V', Slots: "V", NFree: func(int) int { return 3 }, Tol: true,
+			Shapes: func(rr, rc, f, _ int) ([][2]int, bool) { return [][2]int{{rr + f, 1}}, true },
+			Call: func(r mat.Matrix, a []mat.Matrix, _ int) {
+				n, _ := r.Dims()
+				m, _ := a[0].Dims()
+				var qr mat.QR
+				qr.Factorize(sysMatrix(m, n))
+				_ = qr.SolveVecTo(vc(r), false, asVec(a[0]))
+			}},
+		&opDef{Name: "LQ.SolveVecTo", Recv: 'V', Slots: "V", NFree: func(int) int { return 3 }, Tol: true,
+			Shapes: func(rr, rc, f, _ int) ([][2]int, bool) { return [][2]int{{rr - f, 1}}, rr-f >= 1 },
+			Call: func(r mat.Matrix, a []mat.Matrix, _ int) {
+				n, _ := r.Dims()
+				m, _ := a[0].Dims()
+				var lq mat.LQ
+				lq.Factorize(sysMatrix(m, n))
+				_ = lq.SolveVecTo(vc(r), false, asVec(a[0]))
+			}},
+	)
+	for _, o := range ops {
+		opByName[o.Name] = o
+	}
 }
 
 var opByName = func() map[string]*opDef {
@@ -255,12 +386,19 @@ func slotKinds(s byte) []string {
 
 // canT reports whether the operand of kind k in a slot of type s can be passed
 // transposed (T() for Matrix slots, TTri() for Triangular slots).
-func canT(s byte, k string) bool {
-	switch s {
+func (o *opDef) canT(slot int, k string) bool {
+	for _, x := range o.NoT {
+		if x == slot {
+			return false
+		}
+	}
+	switch o.Slots[slot] {
 	case 'M':
 		return k != "S" // SymDense.T() returns the receiver itself
 	case 'T':
 		return true
+	case 'V':
+		return o.VecT
 	}
 	return false
 }
